@@ -160,6 +160,28 @@ example : (@Pdf.addC Int intScale.toWOps
     { data := #[0], idx := fun h => if h < 1 then some h else none, tree := [], next := 1 } 4).isNone
     = true := by decide
 
+/-- [AF] **`getWeight` and `operator[]` stay inside the storage** (item D: `getWeight_reads_leaf` is only the unfolding of
+the definition and says nothing about the range).  After every finite operation sequence, for every live handle `h`:
+its `index_` is a position of `data_` holding `h`, that position exists in the leaf row, and `getWeight h` is the leaf
+there (a value, not the checked read's `none`); and `operator[](i)` is defined exactly for `i < size()`. -/
+theorem getWeight_inbounds [WOps α] (ops : List (Op α)) (h i : Nat)
+    (hi : ((Pdf.empty : Pdf α).run ops).idx h = some i) :
+    ∃ (hd : i < ((Pdf.empty : Pdf α).run ops).data.size) (hr : i < (row0 ((Pdf.empty : Pdf α).run ops)).size),
+      ((Pdf.empty : Pdf α).run ops).data[i] = h ∧
+      ((Pdf.empty : Pdf α).run ops).getWeight h = some (row0 ((Pdf.empty : Pdf α).run ops))[i] ∧
+      ∀ j, (((Pdf.empty : Pdf α).run ops).elemAt j).isSome ↔ j < ((Pdf.empty : Pdf α).run ops).size := by
+  have hix : IdxSync ((Pdf.empty : Pdf α).run ops) := idx_sync_preserved ops
+  have hsh : ShapeInv ((Pdf.empty : Pdf α).run ops) := shape_preserved ops
+  have hd := hix.sync.lt hi
+  have hsz := row0_size _ hsh
+  refine ⟨hd, by omega, hix.sync.get hi hd, ?_, ?_⟩
+  · rw [getWeight_eq, hi]
+    simp [hsz, hd]
+  · intro j
+    simp [Pdf.elemAt, Pdf.size]
+
+example := @getWeight_inbounds Int intScale.toWOps [.add 1, .add 2, .add 3, .remove 0] 2 0 (by decide)
+
 end AF
 
 /-! ## F2: the descent before the fix is index-safe only while parents equal their children's sum -/
@@ -1106,5 +1128,55 @@ example : (@Pdf.ofWeights Int intScale.toWOps []).tree = [] ∧ (@Pdf.ofWeights 
 example := @ctor_spec Int intScale.toWOps [1, 0, 3] (by decide)
 
 end Ctor
+
+/-! ## `Syclop::RegionSet`: the counting PDF (insert = `add(r, 1)` or `update(elem, getWeight(elem) + 1)`) -/
+
+section RegionSet
+open OmplModel.CellPdf Exact
+variable {K : Type} [CommRing K] [LinearOrder K] [IsStrictOrderedRing K]
+
+/-- the cell-PDF protocol read as `RegionSet`: the "cell" of region `r` is `[r]`, a new region enters with weight `1`, a
+region with `n` insertions carries `n` -/
+def regionCfg (K : Type) [CommRing K] : CellPdf.Cfg K := { wOne := 1, wCell := fun n => (n : K) }
+
+/-- [EX] **`RegionSet` counts insertions**: after any history of `insert` / `clear` (cell-PDF histories; `net ops c` =
+insertions of region `c` since the last `clear`), every known region's element carries the weight `net ops c`, and the
+protocol model's next step for that region IS the coded `regions.update(elem, regions.getWeight(elem) + 1)` — so a
+region is sampled with probability (its insertions) / (all insertions) (`sample_probability` applies to this PDF). -/
+theorem regionset_sync (ops : List COp) :
+    ∀ c n e, (CellPdf.run (regionCfg K) ({} : CellPdf.St K) ops).cell c = some (n, e) →
+      (CellPdf.run (regionCfg K) ({} : CellPdf.St K) ops).pdf.getWeight e = some ((net ops c : ℕ) : K) ∧
+      ∀ w, (CellPdf.run (regionCfg K) ({} : CellPdf.St K) ops).pdf.getWeight e = some w →
+        (CellPdf.addMotion (regionCfg K) (CellPdf.run (regionCfg K) ({} : CellPdf.St K) ops) c).pdf =
+          (CellPdf.run (regionCfg K) ({} : CellPdf.St K) ops).pdf.update e (w + 1) := by
+  intro c n e hc
+  have hw : WOps.lt (regionCfg K).wOne (WOps.zero : K) = false := by
+    show decide ((1 : K) < 0) = false
+    simp
+  have hone : (regionCfg K).wCell 1 = (regionCfg K).wOne := by simp [regionCfg]
+  obtain ⟨_, _, hcnt, hf, _⟩ := cellpdf_sync (regionCfg K) hw hone ops
+  have hwt := (hf c n e hc).2.2
+  have hn : n = net ops c := by
+    have := hcnt c
+    rw [hc] at this
+    simp only [Option.map_some] at this
+    by_cases hz : net ops c = 0
+    · simp [hz] at this
+    · simp only [hz, if_false, Option.some.injEq] at this
+      exact this
+  refine ⟨hwt, fun w hw' => ?_⟩
+  rw [hwt] at hw'
+  have hwv : w = ((net ops c : ℕ) : K) := (Option.some.inj hw').symm
+  unfold CellPdf.addMotion
+  rw [hc]
+  simp only [regionCfg, hn, hwv]
+  push_cast
+  rfl
+
+example : (@CellPdf.run Int intScale.toWOps { wOne := 1, wCell := fun n => Int.ofNat n } {}
+    [.add [3], .add [5], .add [3], .add [3], .clear, .add [5], .add [5]]).pdf.tree = [#[2]] := by decide
+example := regionset_sync (K := ℚ) [.add [3], .add [5], .add [3]] [3] 2 0 (by decide)
+
+end RegionSet
 
 end OmplModel.Props.C12
